@@ -148,6 +148,30 @@ func checkArc(c Case) error {
 	if len(arc) < 1 || len(arc) > 4 {
 		return harness.Violatef("c06/segment-count", "%v emitted %d segments, expected 1..4 cubics", kind, len(arc))
 	}
+	// Conditioning. The Renderer only knows the pen as a float32 pixel
+	// position; mapped back to viewBox space the start point carries an error
+	// of about 2*eps32*(|x|+|Min|). Where the requested ellipse itself moves by
+	// more than a fraction of the tolerance under such a perturbation (a short
+	// chord near the end of a very eccentric ellipse, radii that barely span
+	// the chord) no implementation working from the pen can be held to the
+	// unperturbed ellipse: no verdict on the ellipse-following clauses, the
+	// end point and the segment count are still checked.
+	illConditioned := false
+	{
+		dx := 2 * (1.0 / (1 << 23)) * (math.Abs(x1) + math.Abs(float64(vb[0])))
+		dy := 2 * (1.0 / (1 << 23)) * (math.Abs(y1) + math.Abs(float64(vb[1])))
+		phi := 2 * math.Pi * float64(c.Rot)
+		base, _ := svgCenter(x1, y1, x2, y2, c.LargeArc, c.Sweep, rx, ry, phi)
+		for _, d := range [][2]float64{{dx, 0}, {-dx, 0}, {0, dy}, {0, -dy}} {
+			e, _ := svgCenter(x1+d[0], y1+d[1], x2, y2, c.LargeArc, c.Sweep, rx, ry, phi)
+			ddx, ddy := e.CX-base.CX, e.CY-base.CY
+			u := (math.Cos(phi)*ddx + math.Sin(phi)*ddy) / base.RX
+			v := (-math.Sin(phi)*ddx + math.Cos(phi)*ddy) / base.RY
+			if math.Hypot(u, v) > 1.5e-4 || math.Abs(e.Delta-base.Delta) > 2e-4 || math.IsNaN(u+v) {
+				illConditioned = true
+			}
+		}
+	}
 	for _, s := range arc {
 		if s.K != rast.CubeTo {
 			return harness.Violatef("c06/segment-kind", "%v emitted %v, expected cubic segments only", kind, s)
@@ -162,6 +186,11 @@ func checkArc(c Case) error {
 	// first cubic starts at the pen
 	if math.Abs(float64(arc[0].PenX)-startPx) > endTol || math.Abs(float64(arc[0].PenY)-startPy) > endTol {
 		return harness.Violatef("c06/start", "arc starts at pen (%v,%v), expected (%v,%v)", arc[0].PenX, arc[0].PenY, startPx, startPy)
+	}
+	if illConditioned {
+		illConditionedCount++
+		illByFamily[c.Family]++
+		return nil
 	}
 	// samples on the ellipse, parameter monotone from theta1 to theta1+delta
 	cphi, sphi := math.Cos(w.Phi), math.Sin(w.Phi)
@@ -205,6 +234,9 @@ func checkArc(c Case) error {
 	}
 	return nil
 }
+
+var illConditionedCount int64
+var illByFamily = map[string]int64{}
 
 var subArc = harness.Define("arc", "elliptical-arc operations (constructive: centre, radii 0.5-60, rotation, theta1, delta => endpoints and flags; undersized radii with delta=+-pi; zero/negative radii; direct random checked against an independent F.6.5) in absolute and relative form under any viewBox->rectangle map: <= 4 cubics, start at pen, end at mapped endpoint, 9 samples per cubic on the ellipse (1e-3), parameter monotone in the sweep direction with the right extent, zero radius => one LineTo to the mapped endpoint; non-trivial = rotated non-circular ellipse under a non-uniform or off-origin map, or scale-up, or zero radius", checkArc)
 
@@ -403,6 +435,10 @@ func TestArcs(t *testing.T) {
 		}
 		subArc.Run(t, c)
 	})
+	subArc.Label("ellipse-clauses-skipped:ill-conditioned-under-float32-pen", illConditionedCount)
+	for f, n := range illByFamily {
+		subArc.Label("ill-conditioned:family="+f, n)
+	}
 }
 
 // The witness of the zero-radius defect found by reading (D1), and the four
